@@ -8,6 +8,8 @@ use tvh::*;
 
 #[path = "../c03_stmt.rs"]
 mod stmt;
+#[path = "../vm1_gen.rs"]
+mod vm1;
 
 fn m(entries: Vec<(&str, Value)>) -> Value {
     let mut mm = Map::new();
@@ -366,5 +368,8 @@ fn main() {
     meta.extra.insert("chain_sets_rejected".into(), json!(chain_sets_rejected));
     meta.families.push(sink.finish());
     stmt_families(&args, &mut rng, &mut meta);
+    // family vm1: the same VM model in the full world (Model/World1.v); its own generator stream
+    let mut rng1 = Rng::new(args.seed ^ 0x5eed_0001);
+    vm1::run(&args, &mut rng1, &mut meta);
     meta.write(&args.out);
 }
